@@ -59,7 +59,8 @@ claim("C04",
       "extracted from real generated code; dash_to_camel hook). End-to-end: generated code executed under the real ProcGenWrapper vs a reference renderer "
       "written from the WXML semantics over a grammar of all element kinds / attribute families in varied concrete syntax.",
       "PARTIAL proof: the end-to-end refinement tree(run(gen t) D) = render t D is established by the oracle only. Trusted: Lean kernel; axioms ⊆ {propext, "
-      "Classical.choice, Quot.sound}; reference renderer; node runner with stub backend (native nodes, static slots); V8.",
+      "Classical.choice, Quot.sound}; reference renderer (setter calls and their effects: component properties by camel-cased name, external classes, native attributes); node runner with stub "
+      "backend (native nodes, stub components with declared properties); V8.",
       "Lean 4 proof (partial: branch selector, names) + reference-render oracle under the real runtime")
 
 claim("C20",
@@ -79,7 +80,8 @@ claim("C06",
       "with the run-time helpers Z, Q.a, Q.b, Q.c, Object.assign modelled on trees; (3) objGOld_not_covering: the combination emitted at the pinned commit for a spread "
       "operand is NOT covering (the failed proof step that produced finding D58, repaired in /repo). The tag / list level (if / for / template / slot bookkeeping, "
       "RangeListManager) is checked by the oracle: create;update...(trees covering the diff by construction: exact/coarsened/true, and path writes fed to the real tree "
-      "builder of tmpl/index.ts) vs fresh create under the real ProcGenWrapper/RangeListManager.",
+      "builder of tmpl/index.ts) vs fresh create under the real ProcGenWrapper/RangeListManager, over native nodes, stub components and a stub dynamic-slot component "
+      "(content per slot instance, slot values changing between data updates; real slot-value parameters V/W in every other history).",
       "Trusted: Lean kernel; axioms within {propext, Classical.choice, Quot.sound}; harness hook proc_gen_expr; node runner + stub backend; oracle-built update trees; the "
       "value / tree semantics of guard_sound (stated in GE/Thm/C06Guard.lean: atoms / objects with present or absent keys, null-safe member reads, operators and calls as pure "
       "functions, array tail abstract, hoisted temporaries hold the new index / condition values, real trees at least as marked as the model). update_refines is NOT "
@@ -91,8 +93,9 @@ claim("C07",
       "inside a wx:if / wx:for / template-is / slot element, and it occurs in some other value; advertised_iff, disabled_stays_disabled, size_eq_count about the collector "
       "state machine (any operation order). The traversal model is tied by corr:tag_scopes (collected flag of every value) and by comparing its advertised set with the "
       "generated binding map of every template (corr:advertised-sets); the collector by differential runs through a cfg hook. Oracle: for every advertised field, running "
-      "exactly its updaters equals a fresh creation (incl. directed attribute family x hoisted-temporary expressions); fields read in dynamic subtrees / structural "
-      "positions (independent analysis of the abstract template) are never advertised.",
+      "exactly its updaters equals a fresh creation (incl. directed attribute family x hoisted-temporary expressions, components with queued property changes in every "
+      "order with their neighbours); the runtime's own single-change path (binding map if usable, else tree; dynamic-slot components switch the map off) equals a fresh "
+      "creation for advertised and other fields; fields read in dynamic subtrees / structural positions (independent analysis of the abstract template) are never advertised.",
       "Trusted: Lean kernel; axioms within {propext, Classical.choice, Quot.sound}; differential ties; independent use-site analysis; node runner. That the emitted updaters "
       "re-evaluate every occurrence is established by the oracle only.",
       "Lean 4 proof (traversal = lexical specification; collector invariants by induction over operation sequences) + binding-map-vs-create oracle")
